@@ -241,10 +241,12 @@ class Outbound:
             producer.startStreaming(self._paused)
 
     def subchannel_unregisterProducer(self, sc):
-        # TODO: what if the subchannel closes, so we unregister their
-        # producer for them, then the application reacts to connectionLost
-        # with a duplicate unregisterProducer?
-        p = self._subchannel_producers.pop(sc)
+        # when the subchannel closes we unregister its producer ourselves,
+        # and the application may well react to connectionLost with an
+        # unregisterProducer() of its own: tolerate the duplicate
+        p = self._subchannel_producers.pop(sc, None)
+        if p is None:
+            return
         if isinstance(p, PullToPush):
             p.stopStreaming()
         self._all_producers.remove(p)
